@@ -61,6 +61,11 @@ CLAIMED = {
         technique="Coq theorems on the abstract machine (a rejected call leaves every module as it was and fails again the same way; modules do not influence each other; run is a function) + differential histories on real modules: rejected programs vs never-processed modules, interleavings, hash seeds / fresh processes",
         text="Theorems: if a call on module i is rejected the world is unchanged and the same call is rejected again with the same error; a call on module i never changes module j; the machine's run is a function of the program and the call sequence; answers depend on the program only. Tie and search: (a) on programs unroll() rejects (every catalogue error in every context, errors reachable only in a later loop iteration) every call of a random history -- validate, unroll, counts, depth, dumps, flags -- must return or raise exactly what it does on a module never processed (same exception class and message, dumps printing the original); (b) modules that become rejected in the middle of a history (kept external gates whose definitions a transformation drops): retries and accessors raise the same error; (c) outcomes of a module are unchanged when other modules, valid or not and using the same names for aliases/gates/subroutines/variables, are processed in between; (d) the same histories give byte-identical outputs in five fresh processes with hash seeds 0, 1, 2, 12345 and random; (e) rejected-program histories agree with the abstract machine.",
         ref="DESIGN.md §6/C17", note=MOD_NOTE + "Hash-seed and fresh-process independence are facts about CPython (set/dict iteration) that the model cannot exhibit: they are covered by the seed sweep only (partial on that clause). Threads are outside the property."),
+    "C01": dict(engine="coq-lang",
+        technique="Coq theorem: lowering preserves the quantum-classical process (given the per-gate theorems C05/C06) + the inlining clause by correspondence with the visitor model and the reference semantics, and a branching state-vector oracle on real output",
+        text="Theorem (Process.v): over any state space with an equivalence 'equal up to a global phase' respected by the operations, if every library-gate application is lowered to a circuit with the same meaning (discharged for all real parameters by C05_partial / C06_library_inverse), then for every source-level trace -- gates, measurements, resets, measurement-conditioned blocks nested to any depth -- the lowered program yields, from equivalent initial configurations, the same number of outcome branches with pairwise equivalent configurations. The inlining clause (the emitted statements are the lowering of the trace the reference semantics executes; accepted programs are accepted) is checked on every run: real unroll() vs the visitor model vs the reference semantics Spec.v on random programs using every inlining mechanism more than once (custom gates nested and parameterised, subroutines with qubit and classical arguments, loops, compile-time branches, switches, aliases, broadcasting, slices, modifiers), and independently of both models the fully unrolled program is simulated against the same program with its library gates kept opaque and read as their defining unitaries (all measurement outcome patterns, equality up to phase per branch).",
+        ref="DESIGN.md §6/C01",
+        note=LANG_NOTE + "Not a theorem: the refinement of the visitor model to the reference semantics (unroll_refines_spec); it rests on the correspondence, with the structural theorems of C02, C03, C06, C07, C08, C18 as its proved fragments. The process theorem is abstract (Section variables for the state space); its concrete instance is exercised by the simulator. Programs with run-time classical data flow outside static_ok are judged by the oracles only. xx_plus_yy/xy/ms are excluded from the kept-gate oracle (C05 known findings)."),
     "C02": dict(
         engine="coq-lang",
         technique="Coq theorems on the visitor model's operand resolution + exact correspondence with pyqasm on enumerated index/broadcast/alias/subroutine shapes",
